@@ -15,7 +15,8 @@ CORRESPONDENCE = ["Model.FastStream (initStream, resetStream_fast, loadDict/load
                   "dictionary address, dictCtx null/non-null, md5 of the hash table, after EVERY operation; saveDict: saved bytes"]
 RULE = ("op scripts (write bytes / compress block / saveDict / loadDict / reset / level or acceleration change / failed call then reset) over geometries "
         "{contiguous, ring 2M+{0,1,r}, ring with the documented wrap rule, double buffer, saveDict after every block (also saved right in front of the source), "
-        "scattered placements incl. overlap of the front of the dictionary} x max block {16,100,1000,4096,5000,20000,65536,70000} x block sizes incl. 0 x family {fast, HC levels 1..12}; "
+        "scattered placements incl. overlap of the front of the dictionary, ring started in its middle (first block not at offset 0, also across a reset) "
+        "with a later block that starts below the first one and overwrites its oldest, tag-sharing bytes} x max block {16,100,1000,4096,5000,20000,65536,70000} x block sizes incl. 0 x family {fast, HC levels 1..12}; "
         "state injection moves currentOffset (fast) / dictLimit (HC) next to 0x80000000, 0x40000000, 2^32; "
         "non-trivial = an emitted block with at least one match reaching into the history before the block; distinct = distinct (source, block, history length)")
 TRUSTED = ["hand-written model Model/FastStream.v of the streaming API of lib/lz4.c on top of Model/Fast.v, tied by exact state comparison after every operation",
@@ -51,6 +52,12 @@ def gen_cases(tier, seed):
                     cases.append(c)
     for i in range({"quick": 6, "search": 10, "thorough": 30}[tier]):
         cases.append({"bseed": rng.randrange(1 << 48), "kind": "renorm_big", "fam": "f", "arena": 1 << 20})
+    # ring buffers whose first block is not at ring offset 0: a later block starts below it and overwrites its oldest bytes
+    for i in range({"quick": 18, "search": 60, "thorough": 120}[tier]):
+        fam = "h" if i % 6 else "f"
+        M = [256, 1024, 1024, 4096][i % 4]
+        cases.append({"bseed": rng.randrange(1 << 48), "kind": "ring_midstart_" + fam, "fam": fam, "M": M,
+                      "levels": [[2], [3], [6], [9], [10], [12], sl.HC_LEVELS][i % 7], "arena": 6 * M + 3 * sl.K64 + 8192})
     if tier == "thorough" :
         cases.append({"bseed": rng.randrange(1 << 48), "kind": "long_f", "fam": "f", "geo": "ring", "M": 4096, "nblocks": 3000,
                       "p": {"pinject": 1.0, "pdict": 0, "pfail": 0.0}, "arena": 400000, "p_realdec": 0.02})
@@ -67,6 +74,8 @@ def gen_cases(tier, seed):
 worker_init = sl.worker_init
 
 def run_case(st, case):
+    if case["kind"].startswith("ring_midstart"):
+        return sl.run_scenario(st, case, lambda S, rng: sl.scen_ring_midstart(S, rng, case["fam"], {"M": case["M"], "levels": case["levels"]}))
     if case["kind"] == "renorm_big":
         return sl.run_scenario(st, case, lambda S, rng: sl.scen_renorm_big(S, rng))
     if case["kind"].startswith("real2g"):
